@@ -207,7 +207,8 @@ def fdm_module(eng, it, w, amod):
                                  "TriggerDecorator": A["TriggerDecorator"], "CallHandlerDecorator": A["CallHandlerDecorator"],
                                  "CallResultHandlerDecorator": A["CallResultHandlerDecorator"], "DispatchData": A["DispatchData"],
                                  "DecoratorManagerStatus": A["DecoratorManagerStatus"], "weakref": PyModule("weakref", {"finalize": lambda i, o, f: None}),
-                                 "Decorator": A["Decorator"]})
+                                 "Decorator": A["Decorator"],
+                                 "asyncio": PyModule("asyncio", {"CancelledError": EXC["CancelledError"], "TimeoutError": EXC["TimeoutError"]})})
     return mod, Fn, tasks, created
 
 
